@@ -526,6 +526,13 @@ example :
     let s := Handshaker.run Handshaker.init [.start 1, .start 2, .start 3, .finish 1 true, .wait 7, .finish 2 false, .close, .start 4]
     s.closed = true ∧ s.started = [1, 2, 3, 4] ∧ s.handed = [1] ∧ s.shut = [2, 3, 4] := by decide
 
+/-- a connection attempt of a stream-transport dialer is `Start c` followed by `Wait` on the dialer's own handshaker
+    (`Obl.Core.close_paths`: the core dialer's Close closes the transport dialer, whose Close is the handshaker's): when the
+    dialer is closed while the peer is still silent, the connection is closed and the Dial waiting for it returns (D23) -/
+example :
+    let r := Handshaker.step (Handshaker.run Handshaker.init [.start 1, .wait 5]) .close
+    r.1.shut = [1] ∧ r.1.waiters = [] ∧ r.2 = ["ret:5:closed", "shut:1"] := by decide
+
 /-! ### The accept queue of the WebSocket listener (ws, wss) -/
 
 /-- In every state the listener can reach — connections beginning and finishing their upgrade in any order relative to
